@@ -41,6 +41,12 @@ func genC28(seed uint64, tier string) any {
 	sc.Server.EMS = r.Chance(1, 2)
 	sc.Decline = sc.Resume && r.Chance(1, 4)
 	sc.SCTs = []int{0, 0, 1, 2, 3, 4}[r.Intn(6)]
+	// settings that are applied to the ClientHello after it has been built
+	sc.Client.ForceTicket = r.Chance(1, 4)
+	sc.Client.SCTExt = r.Chance(1, 4)
+	if r.Chance(1, 8) {
+		sc.Client.NoTickets = true
+	}
 	if r.Chance(1, 5) {
 		// a scanning client: no certificate verification, and only some (signature, hash) pairs acceptable
 		sc.Client.SkipVerify = true
@@ -317,6 +323,19 @@ func c28Check(sc *c28Scenario, co *connOutcome, keylog []byte, presentedTicket [
 		if lch.TicketSupported != hasTicketExt {
 			return Failf("c28.clienthello", "logged ticket support flag differs from the wire", "log %v, session_ticket extension present %v", lch.TicketSupported, hasTicketExt)
 		}
+		if _, has := wch.ext(18); lch.Scts != has {
+			return Failf("c28.clienthello", "logged SCT request flag differs from the wire", "log %v, signed_certificate_timestamp extension present %v", lch.Scts, has)
+		}
+		if d, ok := wch.ext(11); ok && len(d) >= 1 {
+			if len(lch.SupportedPoints) != len(d)-1 {
+				return Failf("c28.clienthello", "logged point formats differ from the wire", "log %v wire %x", lch.SupportedPoints, d[1:])
+			}
+			for i, pf := range lch.SupportedPoints {
+				if byte(pf) != d[1+i] {
+					return Failf("c28.clienthello", "logged point formats differ from the wire", "log %v wire %x", lch.SupportedPoints, d[1:])
+				}
+			}
+		}
 		if _, has := wch.ext(5); lch.OcspStapling != has {
 			return Failf("c28.clienthello", "logged OCSP stapling flag differs from the wire", "log %v wire %v", lch.OcspStapling, has)
 		}
@@ -517,6 +536,11 @@ func c28Check(sc *c28Scenario, co *connOutcome, keylog []byte, presentedTicket [
 				if hashes != nil && !strIn(hn, hashes) {
 					return Failf("c28.skx.sigalg", "logged hash algorithm is not the one named on the wire", "wire (hash %d, sig %d) = %v, log says %q", w.Hash, w.Sig, hashes, hn)
 				}
+			} else if js := dig(jm, "server_key_exchange", "signature", "signature_and_hash_type"); ls.SigHashExtension != nil || js != nil {
+				// before TLS 1.2 the ServerKeyExchange names no SignatureAndHashAlgorithm
+				return Failf("c28.skx.sigalg", "a signature/hash algorithm is logged although the wire names none (TLS < 1.2)", "version %04x log %+v", version, ls.SigHashExtension)
+			} else {
+				o.count("probe.skx_no_sigalg_before_tls12", 1)
 			}
 		}
 	}
